@@ -3,6 +3,7 @@
 from __future__ import annotations
 
 import asyncio
+import os
 import socket
 
 from hypothesis import strategies as st
@@ -37,7 +38,7 @@ ASSUMPTIONS = [
 ]
 DELETABLE = ("lines", "cuts", "writes")
 
-GOOD_LINES = ("1;1;1;0;0;20.5", "0;255;3;0;9;log message", "12;6;1;0;47;åäö ✓", "7;255;0;0;17;2.3.2", "日本語", "", " ", ";", "a" * 50)
+GOOD_LINES = ("\ufeff1;1;1;0;0;5", "\ufeff", "x\ufeffy", "1;1;1;0;0;20.5", "0;255;3;0;9;log message", "12;6;1;0;47;åäö ✓", "7;255;0;0;17;2.3.2", "日本語", "", " ", ";", "a" * 50)
 BAD_BYTES = ("\xff\xfe", "\x80", "1;2;1;0;0;\xe9", "\xc3", "\xe2\x82", "\xf0\x9f", "abc\xffdef")
 
 
@@ -90,6 +91,8 @@ def _fault_cases():
             out.append({"kind": "fault", "factory": factory, "what": "connect", "exc": exc})
         for what in ("read-before-connect", "write-before-connect", "disconnect-before-connect", "close-raises", "wait-closed-raises", "factory-args"):
             out.append({"kind": "fault", "factory": factory, "what": what, "exc": "OSError"})
+        for exc in ("EIO", "ETIMEDOUT", "EHOSTUNREACH", "ECONNRESET", "EPIPE", "SerialException", "clean-eof"):
+            out.append({"kind": "fault", "factory": factory, "what": "link-lost", "exc": exc})
     return out
 
 
@@ -126,12 +129,12 @@ class MemTransport(StreamTransport):
     def __init__(self, limit: int) -> None:
         super().__init__()
         self.limit = limit
-        self.stub = _Stub()
+        self.mem = None
         self.mem_reader: asyncio.StreamReader | None = None
 
     async def _open_connection(self):
-        self.mem_reader = asyncio.StreamReader(limit=self.limit)
-        return self.mem_reader, self.stub
+        self.mem_reader, writer, self.mem = env.mem_stream_pair(self.limit)
+        return self.mem_reader, writer
 
 
 def build_stream(case: dict) -> tuple[bytes, list[bytes]]:
@@ -293,9 +296,12 @@ def _run_write(case: dict) -> Outcome:
                     closed = True
                     for _ in range(3):
                         await asyncio.sleep(0)
+                known_dead = closed and transport.writer is not None and transport.writer.is_closing()
                 try:
                     await transport.write(line)
                     sent_ok.append(line)
+                    if known_dead:
+                        return fail("write-silently-dropped", f"write {idx} {line!r} returned normally although the connection is already known to be lost (writer is closing)")
                 except TransportError:
                     info["errors"] += 1
                     if not closed:
@@ -328,6 +334,20 @@ def _run_write(case: dict) -> Outcome:
     return Outcome(ok=True, nontrivial=nonascii or closes_after is not None or len(writes) > 1, classes=classes)
 
 
+def _link_exc(name: str) -> BaseException | None:
+    import errno
+
+    if name == "clean-eof":
+        return None
+    if name == "SerialException":
+        import serial
+
+        return serial.SerialException("device reports readiness to read but returned no data (device disconnected?)")
+    code = getattr(errno, name)
+    cls = {"ECONNRESET": ConnectionResetError, "EPIPE": BrokenPipeError, "ETIMEDOUT": TimeoutError}.get(name, OSError)
+    return cls(code, os.strerror(code))
+
+
 def _make_exc(name: str) -> BaseException:
     if name == "gaierror":
         return socket.gaierror(-2, "Name or service not known")
@@ -347,13 +367,15 @@ def _run_fault(case: dict) -> Outcome:
     async def go() -> Outcome | None:
         transport = TCPTransport("gateway.invalid", 5003) if factory == "tcp" else SerialTransport("/dev/ttyNONE", 115200)
         calls = {}
-        stub = _Stub()
 
         async def fake_open(*args, **kwargs):
             calls["args"], calls["kwargs"] = args, kwargs
             if what == "connect":
                 raise _make_exc(case["exc"])
-            return asyncio.StreamReader(), stub
+            # real asyncio stream objects on an in-memory transport, so that a lost link behaves as in production
+            reader, writer, mem = env.mem_stream_pair()
+            calls["protocol"], calls["mem"] = mem.protocol, mem
+            return reader, writer
 
         real_tcp, real_serial = asyncio.open_connection, serial_mod.open_serial_connection
         asyncio.open_connection = fake_open
@@ -393,13 +415,34 @@ def _run_fault(case: dict) -> Outcome:
                 if any(got.get(k) != v for k, v in want.items()):
                     return fail("factory-args", f"{factory} connection opened with {calls!r}, want {want!r}")
                 await transport.write("1;1;1;0;0;é\n")
-                if stub.data != "1;1;1;0;0;é\n".encode("utf-8"):
-                    return fail("write-bytes-differ", f"writer received {stub.data!r}")
+                if bytes(calls["mem"].data) != "1;1;1;0;0;é\n".encode("utf-8"):
+                    return fail("write-bytes-differ", f"writer received {bytes(calls['mem'].data)!r}")
+                return None
+            if what == "link-lost":
+                await transport.write("1;1;1;0;0;1\n")
+                if bytes(calls["mem"].data) != b"1;1;1;0;0;1\n":
+                    return fail("write-bytes-differ", f"transport received {bytes(calls['mem'].data)!r}")
+                exc = _link_exc(case["exc"])
+                calls["mem"].closing = True
+                calls["protocol"].connection_lost(exc)
+                await asyncio.sleep(0)
+                for label, action in (("read", transport.read()), ("write", transport.write("1;1;1;0;0;2\n"))):
+                    try:
+                        await action
+                    except TransportError:
+                        continue
+                    except Exception as err:  # noqa: BLE001
+                        return fail(f"link-lost:{label}-leak:{type(err).__name__}", f"after the link was lost with {exc!r}, {label} raised {err!r}")
+                    return fail(f"link-lost:{label}-no-error", f"after the link was lost with {exc!r}, {label} returned normally")
+                try:
+                    await transport.disconnect()
+                except Exception as err:  # noqa: BLE001
+                    return fail(f"disconnect-raises:{type(err).__name__}", f"link lost with {exc!r}: disconnect raised {err!r}")
                 return None
             if what == "close-raises":
-                stub.close_exc = OSError("close failed")
+                calls["mem"].close_exc = OSError("close failed")
             else:
-                stub.wait_exc = ConnectionResetError("reset")
+                calls["mem"].lost_exc = ConnectionResetError("reset")  # surfaces from wait_closed()
             try:
                 await transport.disconnect()
             except Exception as err:  # noqa: BLE001
